@@ -7,7 +7,8 @@ CONFIG = dict(
              'exbad = every request with pos, del in -1..len+1 and ins in -1..1 after every valid prefix of <=1 operation; '
              'rnd / rndsmall = random sequences (lengths 0..200 / 0..12, 1..60 / 1..25 operations, deletions spanning several intervals or ending exactly at an interval start, '
              'ticks equal to a neighbouring or deleted interval\'s tick, 25% of the runs with packed authors above bit 14, a third of the runs with 10% merge-mark ticks); '
-             'malformed = a valid random prefix followed by one request that is negative, beyond the end, past the end, >= 2^32 (incl. the wrapped values of F12) or empty beyond the end, and bad NewFile arguments; '
+             'malformed = a valid random prefix followed by one request that is negative, beyond the end, past the end, >= 2^32 (incl. the wrapped values of F12), and bad NewFile arguments; '
+             'exbad-emptybeyond / malformed-emptybeyond = the empty request (ins = del = 0) at a position beyond the end (known finding F18), after every valid prefix of <=1 operation on files of 0..4 lines and after random prefixes; '
              'huge = files of 2^32-1-k and 2^31+-k lines with in-range requests (uint32 boundary). '
              'Non-trivial = at least one operation that inserts or deletes was executed without a panic; distinct = distinct (t0, n0, operation list).',
         exhaustive_note='initial lengths 0..4 x all sequences of <=3 in-range operations (quick tier: <=2 operations for lengths 3..4) with pos 0..len, del 0..len-pos, ins 0..2, ticks {t0, t0+1}, '
@@ -17,7 +18,9 @@ CONFIG = dict(
             'Go int is modelled as unbounded Z (requests near 2^63 are outside the model); every uint32(x) conversion of file.go is x mod 2^32',
             'the theorems need the uint32 side condition "Len + ins - del <= 2^32-1" (the code wraps silently beyond it; the harness stays inside it) and, for deletions, '
             '"a deleted line that carries the merge mark carries the operation\'s own tick" (otherwise updateTime panics by design: previousTime cannot be TreeMergeMark)',
-            'an empty request (ins = del = 0) is a no-op wherever it points (C03_update_empty_request); it is not counted as an accepted out-of-range request',
+            'known finding F18: an empty request (ins = del = 0) at a position beyond the end returns without a panic (C03_update_empty_request, '
+            'C03_update_empty_request_beyond_end_refuted); the driver reports it as PROPFAIL [empty-request-beyond-end]; it is generated only by the kinds '
+            'exbad-emptybeyond / malformed-emptybeyond / corpus-emptybeyond, every other stream is free of it; C03_update_rejects covers every other out-of-range request',
             'one Updater is registered; the order of calls within one Update is compared with the model (fine), only the per-value sums matter for the property (coarse)',
         ],
         trusted_base=[
@@ -26,12 +29,12 @@ CONFIG = dict(
         ],
         level_text='Coq theorems over the executable list model of File.Update/NewFile/updateTime: for every well-formed tracker state and every in-range request one Update yields exactly the '
                    'plain-array edit (lines, length), keeps the state well formed, reports deltas whose per-value sums equal the change of the array histogram (nothing when the tick carries '
-                   'the merge mark), and every out-of-range request (negative, beyond/past the end, >= 2^32) panics; lifted by induction to all operation sequences from NewFile '
+                   'the merge mark), and every out-of-range request (negative, beyond/past the end, >= 2^32) panics except the empty request beyond the end (known finding F18, refuted by witness); lifted by induction to all operation sequences from NewFile '
                    '(C03_sequences, C03_sequences_histogram). All closed under the global context. The model is tied to the Go code by fine correspondence on >100k generated cases per run incl. exhaustive small scopes.',
         level_note='Proved about the Gallina model, not about the Go source (no verified Go semantics): the tie is the per-run replay (node list, Len, Updater calls, panic class after every call; '
                    'flattened lines and running histogram against the extracted array oracle). The red-black tree is abstracted to its in-order item list (C05). '
                    'Side conditions stated explicitly in the theorems: keys are uint32 (Len <= 2^32-1 is part of WF), the new length must fit (Len+ins-del <= 2^32-1; beyond it the code wraps silently, '
-                   'not covered), a deleted line carrying the merge mark must carry the operation\'s tick (else updateTime panics by design). Empty requests (ins=del=0) are no-ops at any position. '
+                   'not covered), a deleted line carrying the merge mark must carry the operation\'s tick (else updateTime panics by design). Empty requests (ins=del=0) are no-ops at any position, also beyond the end where the property asks for a panic: known finding F18 (refutation theorem + tagged PROPFAIL from dedicated generator kinds). '
                    'NewFile with a negative length builds a one-node tree on which every later Update panics (outside the quantifier "all initial lengths"; followed by the correspondence only). '
                    'C03_update_refuted_before_fix documents the repaired defect F2 on a model of the code before the fix.',
         technique='machine-checked proof in Coq 8.16 over a hand-written executable Gallina model (about 2 000 lines: locate / deletion loop / prepare / finish blocks, pointwise value reasoning, tabulation) '
